@@ -74,4 +74,8 @@ def readV1BlockRow (row : List UInt8) : Outcome (List UInt8 × List UInt8) :=
   | none => .panic
   | some hb => .ok (hb, (hb.drop 4).take 32)
 
+/-- `blockIndexKey`: `<uint32 big-endian height><32-byte block hash>` (so the bucket iterates by height). -/
+def blockIndexKey (hash : List UInt8) (height : Nat) : List UInt8 :=
+  (leBytes 4 height).reverse ++ copyInto 32 hash
+
 end BV.C15
